@@ -66,6 +66,7 @@ class FPCtx(Ctx):
 
 
 class AddPrefixEntry(Contract):
+    prefer_cvc5 = True
     target = f"{FP}._add_prefix"
     properties = ("C06", "C07")
     ctx_class = FPCtx
@@ -175,6 +176,7 @@ AddPrefixEntry.witness = _leaf_witness("_add_prefix")
 
 
 class RootKeysEntry(Contract):
+    prefer_cvc5 = True
     """_root_keys per entry: the namespaces a (prefixed) filter refers to -- decides whether documents are indexed at all"""
     target = f"{FP}._root_keys"
     properties = ("C06", "C07")
